@@ -24,7 +24,7 @@ ASSIGN_ALGOS = {'fill_n', 'fill', 'copy', 'copy_n', 'copy_backward', 'move', 'mo
 HOLE_OPEN = {'shift_right'}
 HOLE_RAW = {'destroy_after_shift'}
 HOLE_CONSUME = {'assign_after_shift', 'fill_after_shift', 'copy_after_shift', 'relocate_after_shift'}
-HOLE_CLOSE = {'shift_left': 'open', 'uninitialized_shift_left': 'raw'}
+HOLE_CLOSE = {'shift_left': 'open', 'unshift_right': 'open', 'uninitialized_shift_left': 'raw'}
 ERASE_FAMILY = {'erase_at', 'erase_n'}
 SIZE_COMMIT = {'incrSize', 'decrSize', 'setSize'}
 SIZE_LVALUE = {'msize', 'mcapacity'}
